@@ -52,6 +52,16 @@ def run(seed=0, tier="quick", aimed=None):
         if e > 1e-12:
             return {"ok": False, "cases": cases, "samples": samples, "failing_input": {
                 "oracle": "2d_velocity_divfree", "grid": [ny, nx], "psi": impl.tolist(psi), "p": p, "max_div": e}}
+        # the variant the 2D simulator uses for velocity recovery (boundary ring reset): same identity at every cell whose stencil
+        # does not touch the ring (index >= 2 from every side), and the same values as the plain variant off the ring
+        ur = r.normal(size=(2, ny, nx))
+        spne.gen_outplane_field_curl_pyst_kernel_2d(real_t=np.float64, reset_ghost_zone=True)(curl=ur, field=psi, prefactor=p)
+        div2r = (ur[0][2:-2, 3:-1] - ur[0][2:-2, 1:-3]) + (ur[1][3:-1, 2:-2] - ur[1][1:-3, 2:-2])
+        e = max(float(np.max(np.abs(div2r))), float(np.max(np.abs(ur[:, 1:-1, 1:-1] - u[:, 1:-1, 1:-1])))); cases += 1
+        if e > 1e-12:
+            return {"ok": False, "cases": cases, "samples": samples, "failing_input": {
+                "oracle": "2d_velocity_divfree[reset_ghost_zone]", "grid": [ny, nx], "psi": impl.tolist(psi), "p": p, "max_dev": e,
+                "what": "recovered velocity (ghost-zone reset variant) not divergence-free off the ring, or different from the plain variant off the ring"}}
         cc = r.normal(size=(ny, nx))   # output arrays start dirty: the kernel must overwrite its region
         spne.gen_inplane_field_curl_pyst_kernel_2d(real_t=np.float64)(curl=cc, field=u, prefactor=q)
         wide = q * p * (4 * psi[2:-2, 2:-2] - psi[4:, 2:-2] - psi[:-4, 2:-2] - psi[2:-2, 4:] - psi[2:-2, :-4])
